@@ -125,7 +125,9 @@ void FileGraph::fromMem(void* m, uint64_t node_offset, uint64_t edge_offset,
   if (graphVersion == 1) {
     uint32_t* fptr32 = (uint32_t*)fptr;
     fptr32 += numEdges + numEdges % 2;
-    if (!lenlimit || lenlimit > numEdges + ((char*)fptr32 - (char*)m))
+    if (!lenlimit ||
+        (sizeofEdge && lenlimit >= sizeofEdge * numEdges +
+                                       (uint64_t)((char*)fptr32 - (char*)m)))
       edgeData = (char*)fptr32;
     else
       edgeData = 0;
@@ -135,7 +137,9 @@ void FileGraph::fromMem(void* m, uint64_t node_offset, uint64_t edge_offset,
     uint64_t* fptr64 = (uint64_t*)fptr;
     fptr64 += numEdges;
 
-    if (!lenlimit || lenlimit > numEdges + ((char*)fptr64 - (char*)m))
+    if (!lenlimit ||
+        (sizeofEdge && lenlimit >= sizeofEdge * numEdges +
+                                       (uint64_t)((char*)fptr64 - (char*)m)))
       edgeData = (char*)fptr64;
     else
       edgeData = 0;
